@@ -89,6 +89,7 @@ func (e *Eng) obligations() {
 	e.ndstream()
 	e.ndstreamChunks()
 	e.ndstreamMore()
+	e.filterNotMutated()
 	e.automaton()
 	e.codec()
 	e.codecConfig()
